@@ -151,9 +151,26 @@ def routes(pendulum, z, inst):
     a = base.subtract(hours=3).add(hours=3)
     if obs.instant_us(a) == inst:
         out.append(("arithmetic", a))
+    # the same value obtained by PARSING its calendar, ordinal and week-date spellings in the zone (tz option)
+    import datetime as dt_
+    nd = dt_.date(f[0], f[1], f[2])
+    iy, iw, iwd = nd.isocalendar()
+    tail = "T%02d:%02d:%02d.%06d" % tuple(f[3:7])
+    spellings = (("parsed-calendar", "%04d-%02d-%02d" % tuple(f[:3]) + tail), ("parsed-week-date", "%04d-W%02d-%d" % (iy, iw, iwd) + tail),
+                 ("parsed-ordinal", "%04d-%03d" % (f[0], nd.timetuple().tm_yday) + tail))
+    # one spelling per state (rotating); the week date always where its year differs from the calendar year
+    pick = {inst // US % 3} | ({1} if iy != f[0] else set())
+    for pname, text in [sp for i, sp in enumerate(spellings) if i in pick]:
+        try:
+            c = pendulum.parse(text, tz=tzobj)
+        except Exception:  # noqa: BLE001
+            continue       # C07's business
+        if obs.instant_us(c) == inst and obs.fields(c) == f:
+            out.append((pname, c))
+        elif len(tzref.zone(z).solve(obs.wall_us(f) // US)) == 1:
+            out.append((pname + "/DIFFERENT-VALUE", c))     # an unambiguous spelling of this very value came back as another one
     # the same value carrying a tzinfo that is not a pendulum timezone (raw constructor / fromisoformat / astimezone(<foreign>))
     import zoneinfo
-    import datetime as dt_
     fz = dt_.timezone(dt_.timedelta(seconds=z)) if isinstance(z, int) else zoneinfo.ZoneInfo(z)
     fx = pendulum.DateTime(*f, tzinfo=fz, fold=base.fold)
     if obs.instant_us(fx) == inst:
@@ -188,6 +205,11 @@ def check_state(acc, pendulum, z, inst, units=UNITS, ws=0, rs=None, tag=None):
     rs = routes(pendulum, z, inst) if rs is None else rs
     ref_f = seeds.fields_of_wall(inst) if z is None else obs.expected_render(z, inst)[0]
     acc.c["impl_states"] += len(rs)
+    for rname, x in rs:
+        if rname.endswith("/DIFFERENT-VALUE"):
+            acc.mismatch("route", "parsed-value-is-another-instant", {"kind": "state", "z": z, "inst": inst, "unit": "day", "which": "start", "route": rname, "ws": ws},
+                         [obs.fields(x), obs.offset_s(x)], [ref_f, "same instant"])
+    rs = [r for r in rs if not r[0].endswith("/DIFFERENT-VALUE")]
     for unit in units:
         kx = unit_key(ref_f, unit, ws)
         for which in ("start", "end"):
